@@ -1,5 +1,5 @@
 (* Inv: the state invariant (DESIGN section 5) and its boolean-free Prop form. Definitions + map lemmas. *)
-From ATS Require Import Prelude Dec DecFacts Uuid Semver Types Contract Tactics Spec.
+From ATS Require Import Prelude Dec DecFacts Uuid Semver Types Contract Tactics Spec ExactFacts.
 Ltac Zify.zify_post_hook ::= Z.div_mod_to_equations.
 
 (* a parsed price usable by the contract: positive, scale <= 28 *)
@@ -46,7 +46,10 @@ Record InvA (st : state) : Prop := mkInvA {
 Record InvB (st : state) : Prop := mkInvB {
   inv_bids : forall c k s, st_cfg st = Some c -> lookup k (st_bids st) = Some s ->
                            exists b, s = SlotV3 b /\ bid_ok c k b;
-  inv_nd_bids : keys_nodup (st_bids st) }.
+  inv_nd_bids : keys_nodup (st_bids st);
+  (* every bid's price has at most `precision` decimals (value level) *)
+  inv_prec : forall c k b p, st_cfg st = Some c -> lookup k (st_bids st) = Some (SlotV3 b) ->
+                             dec_parse (b_price b) = Some p -> within_precision p (cf_precision c) }.
 Definition Inv (st : state) : Prop := InvA st /\ InvB st.
 
 (* ---------------------------------------------------------------- map lemmas *)
